@@ -72,6 +72,77 @@ LogCacheRow(r) ==
       N == IF r.real = r.gets THEN {} ELSE {<<"LogCache", "model", r>>}
   IN Judge(V, N)
 
+\* C15: what a FRESH FileSnapshotStore lists / opens after the real store was stopped at a hook point
+\* (r.at, r.variant) of history r.hist; facts are what the harness knows about each snapshot
+FsNewer(a, b) == \/ a.term > b.term
+                 \/ (a.term = b.term /\ a.index > b.index)
+                 \/ (a.term = b.term /\ a.index = b.index /\ a.seq > b.seq)
+FileSnapRow(r) ==
+  LET F == {r.facts[i] : i \in 1..Len(r.facts)}
+      L == r.listed
+      names == {L[i].name : i \in 1..Len(L)}
+      factOf(nm) == CHOOSE f \in F : f.name = nm
+      known == \A i \in 1..Len(L) : \E f \in F : f.name = L[i].name
+      V == (IF \A i \in 1..Len(L) : L[i].openok /\ L[i].contentok THEN {}
+            ELSE {<<"C15", "ListedSnapshotNotComplete", <<r.at, r.variant, r.crash, L>>>>})
+           \cup (IF \A i \in 1..Len(L) : L[i].openok => L[i].crcguards THEN {}
+                 ELSE {<<"C15", "CorruptionNotDetected", <<r.at, r.variant, r.crash, L>>>>})
+           \cup (IF known /\ \A i \in 1..Len(L) : factOf(L[i].name).mode = "close" /\ factOf(L[i].name).renamed THEN {}
+                 ELSE {<<"C15", "CancelledOrInterruptedListed", <<r.at, r.variant, r.crash, L>>>>})
+           \cup {<<"C15", "ClosedSnapshotNotListed", <<r.at, r.variant, r.crash, f.name, L>>>> :
+                   f \in {x \in F : x.closed /\ x.name \notin names
+                                  /\ Cardinality({i \in 1..Len(L) : known /\ FsNewer(factOf(L[i].name), x)}) < r.retain}}
+           \cup (IF \A i \in 1..(Len(L) - 1) : known => FsNewer(factOf(L[i].name), factOf(L[i + 1].name)) THEN {}
+                 ELSE {<<"C15", "NotNewestFirst", <<r.at, r.variant, r.crash, L>>>>})
+           \cup (IF Len(L) <= r.retain THEN {} ELSE {<<"C15", "MoreThanRetainListed", <<r.at, r.variant, r.crash, L>>>>})
+           \cup {<<"C15", "NewestSnapshotNotListed", <<r.at, r.variant, r.crash, f.name, L>>>> :
+                   f \in {x \in F : x.synced /\ x.name \notin names
+                                  /\ ~\E i \in 1..Len(L) : known /\ FsNewer(factOf(L[i].name), x)}}
+  IN Judge(V, {})
+
+\* C15, durability discipline observed with strace on the real store: r.events is the sequence of
+\* <<kind, file>> system-call events of one Create..Close / Create..Cancel
+FileSysRow(r) ==
+  LET E == r.events
+      Idx(k, f) == {i \in 1..Len(E) : E[i] = <<k, f>>}
+      Last(k, f) == IF Idx(k, f) = {} THEN 0 ELSE CHOOSE i \in Idx(k, f) : \A j \in Idx(k, f) : j <= i
+      ri == Last("rename", "dir")
+      ret == Last("return", r.op)
+      V == IF r.op = "close" THEN
+             (IF ri > 0 THEN {} ELSE {<<"C15", "SysNoRename", E>>})
+             \cup (IF Last("write", "state") > 0 /\ Last("write", "state") < Last("fsync", "state") /\ Last("fsync", "state") < ri THEN {}
+                   ELSE {<<"C15", "SysStateNotSyncedBeforeRename", E>>})
+             \cup (IF Last("write", "meta") > 0 /\ Last("write", "meta") < Last("fsync", "meta") /\ Last("fsync", "meta") < ri THEN {}
+                   ELSE {<<"C15", "SysMetaNotSyncedBeforeRename", E>>})
+             \cup (IF \E i \in Idx("fsync", "parent") : i > ri /\ i < ret THEN {} ELSE {<<"C15", "SysParentNotSyncedAfterRename", E>>})
+             \cup (IF Last("fsync", "state") > Last("write", "meta") THEN {<<"C15", "SysFinalMetaBeforeStateSync", E>>} ELSE {})
+           ELSE (IF ri = 0 THEN {} ELSE {<<"C15", "SysCancelRenamed", E>>})
+                \cup (IF Idx("unlink", "dir") # {} THEN {} ELSE {<<"C15", "SysCancelLeftDirectory", E>>})
+  IN Judge(V, {})
+
+\* C16: events of one scenario on a real pair of NetworkTransports
+NetTransRow(r) ==
+  LET E == r.events
+      Ev(k) == {E[i] : i \in {j \in 1..Len(E) : E[j].ev = k}}
+      starts == Ev("CallStart")   recvs == Ev("ServerRecv")   replies == Ev("ServerReply")
+      rets == Ev("CallReturn") \cup Ev("FutureDone")
+      Has2(x, f) == f \in DOMAIN x
+      V == {<<"C16", "RequestAltered", <<r.case, e.tag>>>> :
+               e \in {x \in recvs : ~\E s \in starts : s.tag = x.tag /\ s.digest = x.digest
+                                                       /\ (Has2(s, "body") => (Has2(x, "body") /\ x.body = s.body))}}
+           \cup {<<"C16", "ResponseNotTheOneProduced", <<r.case, e.tag>>>> :
+               e \in {x \in rets : Has2(x, "digest") /\ ~\E p \in replies : p.tag = x.tag /\ Has2(p, "digest") /\ p.digest = x.digest}}
+           \cup {<<"C16", "ResponseOfAnotherRequest", <<r.case, e.tag, e.rtag>>>> :
+               e \in {x \in rets : Has2(x, "rtag") /\ x.rtag # x.tag}}
+           \cup {<<"C16", "HandlerErrorLostOrChanged", <<r.case, e.tag>>>> :
+               e \in {x \in replies : Has2(x, "err") /\ \E y \in rets : y.tag = x.tag /\
+                         (~Has2(y, "err") \/ (y.err # x.err /\ ~\E i \in 1..Len(r.ops) : r.ops[i].fault \in {"cutreq", "cutresp"}))}}
+           \cup {<<"C16", "DeliveredTwice", <<r.case, e.tag>>>> :
+               e \in {x \in recvs : Cardinality({y \in recvs : y.tag = x.tag}) > 1}}
+           \cup {<<"C16", "PipelineOutOfOrder", <<r.case, e.tag>>>> :
+               e \in {x \in Ev("FutureDone") : \E y \in Ev("FutureDone") : y.pipe = x.pipe /\ y.seq < x.seq /\ y.tag > x.tag}}
+  IN Judge(V, {})
+
 Init == l = 1 /\ nv = 0 /\ nn = 0
 Next == /\ l <= Len(Rows) + 1
         /\ l' = l + 1
@@ -81,5 +152,8 @@ Next == /\ l <= Len(Rows) + 1
                   [] Kind = "configuration" -> ConfigurationRow(Rows[l])
                   [] Kind = "compaction"    -> CompactionRow(Rows[l])
                   [] Kind = "logcache"      -> LogCacheRow(Rows[l])
+                  [] Kind = "filesnap"      -> FileSnapRow(Rows[l])
+                  [] Kind = "filesys"       -> FileSysRow(Rows[l])
+                  [] Kind = "nettrans"      -> NetTransRow(Rows[l])
 Spec == Init /\ [][Next]_vars
 =============================================================================
